@@ -1,1 +1,3 @@
+import GqlProofs.Props.C01
 import GqlProofs.Props.C03
+import GqlProofs.Props.C04
